@@ -65,58 +65,77 @@ def digitPass (current : BitVec 64) (dir : Nat) : Nat → R (BitVec 64 × Option
       if nextDir != 0 then digitPass current nextDir level
       else .ok (current, none)
 
-/-- `h3NeighborRotations(origin, dir, &rotations, &out)`: returns (out, rotations') -/
-def h3NeighborRotations (origin : BitVec 64) (dir : Nat) (rotations : Nat) : R (BitVec 64 × Nat) := do
-  if dir >= 7 then throw .failed
-  let rotations := rotations % 6
-  let dir := iterate rotate60ccw rotations dir
-  let oldBaseCell := getBaseCell origin
-  if oldBaseCell >= 122 then throw .cellInvalid
-  let oldLeadingDigit := leadingNonZeroDigit origin
-  let (current, atBase) ← digitPass origin dir (getRes origin)
-  let (current, newRotations, rotations) :=
-    match atBase with
-    | none => (current, (0 : Int), rotations)
-    | some d =>
-      let nb := bcNeighbor oldBaseCell d
-      if nb == 127 then
-        -- pentagon base cell, deleted k direction: go IK and rotate
-        (h3Rotate60ccw (setBaseCell current (bcNeighbor oldBaseCell 5)),
-          bcNeighborRot oldBaseCell 5, rotations + 1)
-      else (setBaseCell current nb, bcNeighborRot oldBaseCell d, rotations)
-  let newBaseCell := getBaseCell current
-  let nrot := newRotations.toNat
-  if isBaseCellPentagon newBaseCell then
-    let mut current := current
-    let mut rotations := rotations
-    let mut alreadyAdjustedKSubsequence := false
-    if leadingNonZeroDigit current == 1 then
-      if oldBaseCell != newBaseCell then
-        if baseCellIsCwOffset newBaseCell (homeFace oldBaseCell) then
-          current := h3Rotate60cw current
-        else
-          current := h3Rotate60ccw current
-        alreadyAdjustedKSubsequence := true
-      else
-        if oldLeadingDigit == 0 then throw .pentagon
-        else if oldLeadingDigit == 3 then
-          current := h3Rotate60ccw current
-          rotations := rotations + 1
-        else if oldLeadingDigit == 5 then
-          current := h3Rotate60cw current
-          rotations := rotations + 5
-        else throw .failed
-    current := iterate h3RotatePent60ccw nrot current
+/-- the base-cell switch at the end of the digit loop (`r == -1`): (index, newRotations, rotations) -/
+def baseCellSwitch (oldBaseCell : Nat) (current : BitVec 64) (atBase : Option Nat) (rotations : Nat) :
+    BitVec 64 × Int × Nat :=
+  match atBase with
+  | none => (current, (0 : Int), rotations)
+  | some d =>
+    let nb := bcNeighbor oldBaseCell d
+    if nb == 127 then
+      -- pentagon base cell, deleted k direction: go IK and rotate
+      (h3Rotate60ccw (setBaseCell current (bcNeighbor oldBaseCell 5)),
+        bcNeighborRot oldBaseCell 5, rotations + 1)
+    else (setBaseCell current nb, bcNeighborRot oldBaseCell d, rotations)
+
+/-- the part of `h3NeighborRotations` after the base-cell switch when the new base cell is a
+pentagon (rotations out of the deleted k sub-sequence, polar special cases) -/
+def finishPentagon (oldBaseCell newBaseCell oldLeadingDigit nrot : Nat) (current : BitVec 64) (rotations : Nat) :
+    R (BitVec 64 × Nat) := do
+  let mut current := current
+  let mut rotations := rotations
+  let mut alreadyAdjustedKSubsequence := false
+  if leadingNonZeroDigit current == 1 then
     if oldBaseCell != newBaseCell then
-      if isBaseCellPolarPentagon newBaseCell then
-        if oldBaseCell != 118 && oldBaseCell != 8 && leadingNonZeroDigit current != 3 then
-          rotations := rotations + 1
-      else if leadingNonZeroDigit current == 5 && !alreadyAdjustedKSubsequence then
+      if baseCellIsCwOffset newBaseCell (homeFace oldBaseCell) then
+        current := h3Rotate60cw current
+      else
+        current := h3Rotate60ccw current
+      alreadyAdjustedKSubsequence := true
+    else
+      if oldLeadingDigit == 0 then throw .pentagon
+      else if oldLeadingDigit == 3 then
+        current := h3Rotate60ccw current
         rotations := rotations + 1
-    pure (current, (rotations + nrot) % 6)
+      else if oldLeadingDigit == 5 then
+        current := h3Rotate60cw current
+        rotations := rotations + 5
+      else throw .failed
+  current := iterate h3RotatePent60ccw nrot current
+  if oldBaseCell != newBaseCell then
+    if isBaseCellPolarPentagon newBaseCell then
+      if oldBaseCell != 118 && oldBaseCell != 8 && leadingNonZeroDigit current != 3 then
+        rotations := rotations + 1
+    else if leadingNonZeroDigit current == 5 && !alreadyAdjustedKSubsequence then
+      rotations := rotations + 1
+  pure (current, (rotations + nrot) % 6)
+
+/-- everything after the digit loop -/
+def finishNeighbor (oldBaseCell oldLeadingDigit : Nat) (current : BitVec 64) (atBase : Option Nat) (rotations : Nat) :
+    R (BitVec 64 × Nat) :=
+  let sw := baseCellSwitch oldBaseCell current atBase rotations
+  let current := sw.1
+  let nrot := sw.2.1.toNat
+  let rotations := sw.2.2
+  let newBaseCell := getBaseCell current
+  if isBaseCellPentagon newBaseCell then
+    finishPentagon oldBaseCell newBaseCell oldLeadingDigit nrot current rotations
   else
-    let current := iterate h3Rotate60ccw nrot current
-    pure (current, (rotations + nrot) % 6)
+    .ok (iterate h3Rotate60ccw nrot current, (rotations + nrot) % 6)
+
+/-- `h3NeighborRotations(origin, dir, &rotations, &out)`: returns (out, rotations') -/
+def h3NeighborRotations (origin : BitVec 64) (dir : Nat) (rotations : Nat) : R (BitVec 64 × Nat) :=
+  if dir >= 7 then .error .failed
+  else
+    let rotations := rotations % 6
+    let dir := iterate rotate60ccw rotations dir
+    let oldBaseCell := getBaseCell origin
+    if oldBaseCell >= 122 then .error .cellInvalid
+    else
+      match digitPass origin dir (getRes origin) with
+      | .error e => .error e
+      | .ok (current, atBase) =>
+        finishNeighbor oldBaseCell (leadingNonZeroDigit origin) current atBase rotations
 
 /-- `directionForNeighbor`: 7 (INVALID_DIGIT) if not a neighbour -/
 def directionForNeighbor (origin destination : BitVec 64) : Nat :=
